@@ -7,4 +7,15 @@ export PYTHONHASHSEED=0 PYTHONDONTWRITEBYTECODE=1 AW_CORE_VERIF=1
 export VERIF_REPO="${VERIF_REPO:-/repo}"
 export PYTHONPATH="$VERIF_REPO:$(pwd)"
 mod="harness.$(echo "$prop" | tr 'A-Z' 'a-z')"
-exec /venv/bin/python -m "$mod" "$tier"
+# A verdict is "exit 0" or "exit 1 with a VIOLATION line".  A harness process that dies without a verdict
+# (an infrastructure hiccup: a killed worker, a full disk, a locked scratch file) is not a verdict: keep its
+# output and run the check once more; the second run's status is final.
+out="$(mktemp)"
+/venv/bin/python -m "$mod" "$tier" 2>&1 | tee "$out"; rc=${PIPESTATUS[0]}
+if [ "$rc" -ne 0 ] && ! grep -q '^VIOLATION' "$out"; then
+  mkdir -p build/crash-logs && cp "$out" "build/crash-logs/$prop-$tier-$(date +%s).log"
+  echo "run.sh: the harness ended with status $rc without a verdict (output kept under build/crash-logs); running it once more" >&2
+  /venv/bin/python -m "$mod" "$tier"; rc=$?
+fi
+rm -f "$out"
+exit "$rc"
